@@ -13,12 +13,16 @@
 EXTENDS Integers
 
 Sat == 2000000000
-Kinds == {"sum", "count", "numberof", "call", "vararg", "itlogical", "pairwise", "plterm"}
+Kinds == {"sum", "count", "numberof", "call", "vararg", "itlogical", "pairwise", "plterm",
+          \* mp::Problem (include/mp/problem.h): a block of n variables / common expressions added to a problem that
+          \* already has some - the new total has to fit an int; at least one word is requested per item
+          "addvars", "addvarsarr", "addcexprs"}
+ProblemKinds == {"addvars", "addvarsarr", "addcexprs"}
 \* words per item beyond the first / per breakpoint
 Item8(kind) == IF kind = "plterm" THEN 2 ELSE 1
 \* a lower bound of the true size: the items alone (the header is not counted)
 Needed8(kind, n) ==
-  LET k == IF kind = "plterm" THEN n ELSE n - 1
+  LET k == IF kind = "plterm" \/ kind \in ProblemKinds THEN n ELSE n - 1
   IN IF k <= 0 THEN 0 ELSE IF k > Sat \div Item8(kind) THEN Sat ELSE Item8(kind) * k
 
 \* true size representable in an int (the factory's size type): below 2^31 bytes = 2^28 words
@@ -26,6 +30,7 @@ Representable(kind, n) == Needed8(kind, n) < 268435456 - 64
 
 SizeOK(kind, n, o) ==
   CASE o.res \in {"ok", "badalloc"} -> o.req8 >= Needed8(kind, n)      \* what was asked for covers the items
+                                        /\ (kind \in ProblemKinds => n <= 2147483644)   \* 3 + n does not fit an int: error
     [] o.res = "overflow" -> n > 1000000                              \* an error is always allowed - but small counts must work
     [] OTHER -> FALSE
 =============================================================================
